@@ -279,6 +279,13 @@ def run(rng, n_gen, corpus_limit=None) -> dict:
         for ptext, name, ar in unused_observations(_preprocess(_parse(text)), inputs, outputs):
             reqs.append(f'(sem_unused_cond {ptext} {ser.q(name)} {ar})')
             meta.append(("unused", text, f"{name}/{ar}", 1))
+        for stm in _parse(text):
+            if stm.ast_type in (ASTType.Rule, ASTType.Minimize):
+                try:
+                    reqs.append(f'(sem_okstm {ser.stm(stm)})')
+                    meta.append(("expand_comparisons", text, str(stm), 1))
+                except Exception:  # noqa
+                    hist["expand_comparisons: statement outside the mirror"] += 1
         for before, aux, upd, ctxp in projection_observations(_preprocess(_parse(text)), inputs):
             reqs.append(f'(sem_split_cond {before} {aux} {upd} {ctxp})')
             meta.append(("projection", text, (aux, upd), 1))
